@@ -31,8 +31,8 @@ def run(t):
         a = sh("git", "-C", wt, "apply", os.path.join(d, "patch.diff"))
         if a.returncode != 0: return (pid, n, "PATCH-FAILS", a.stderr.strip()[:100])
         r = sh(os.path.join(ROOT, "check"), chk, "quick", cwd=ROOT,
-               env=dict(os.environ, VERIF_REPO=wt, VERIF_EVIDENCE_DIR=os.path.join(ROOT, "out", "seeded-evidence", f"{pid}_{n}"),
-                        VERIF_OUT_DIR=os.path.join(ROOT, "out", "seeded-smt", f"{pid}_{n}")))
+               env=dict(os.environ, VERIF_REPO=wt, VERIF_EVIDENCE_DIR=os.path.join(ROOT, "out", "seeded-evidence", f"{pid}_{n}_{chk}"),
+                        VERIF_OUT_DIR=os.path.join(ROOT, "out", "seeded-smt", f"{pid}_{n}_{chk}")))
         viol = [l for l in r.stdout.splitlines() if l.startswith("VIOLATION")]
         fails = [l.split(" verdict=")[0].replace("FAILED ", "") for l in r.stdout.splitlines() if l.startswith("FAILED")]
         fails.sort(key=lambda o: "#kf-" in o)   # obligations of recorded known findings last
